@@ -123,6 +123,7 @@ struct Builder{
 	std::vector<boost::shared_ptr<K> > pool;
 	bool hasNorm;       // contains a NormalizedKernel: rounding differs between the evaluation paths
 	bool inexact;       // contains exp/sqrt: values are not exact
+	std::string paramOracle;   // parameter bookkeeping of composed kernels (ProductKernel::m_numberOfParameters)
 	Builder(): hasNorm(false), inexact(false){}
 	K* keep(K* k){ pool.push_back(boost::shared_ptr<K>(k)); return k; }
 	K* parse(std::vector<std::string> const& t, std::size_t& p){
@@ -192,7 +193,15 @@ struct Builder{
 			p += 1;
 			std::vector<K*> ks(n);
 			for(std::size_t i = 0; i != n; ++i){ ks[i] = parse(t, p); if(!ks[i]) return 0; }
-			return keep(new ProductKernel<I>(ks));
+			K* pk = keep(new ProductKernel<I>(ks));
+			// oracle: the parameter count of a product is the sum of its factors' counts
+			std::size_t expected = 0;
+			for(std::size_t i = 0; i != n; ++i) expected += ks[i]->numberOfParameters();
+			if(pk->numberOfParameters() != expected){
+				std::ostringstream os; os << " !oracle product-parameter-count numberOfParameters=" << pk->numberOfParameters() << " expected=" << expected;
+				paramOracle = os.str();
+			}
+			return pk;
 		}
 		if(op == "sub"){
 			if(p + 2 > t.size() || !parseNat(t[p], a) || !parseNat(t[p+1], b)) return 0;
@@ -483,7 +492,13 @@ int run(){
 				std::size_t p = 1;
 				vs.k = builder->parse(t, p);
 				if(!vs.k || p != t.size()){ vs.k = 0; out = "bad-op"; }
-				else{ vs.tolUlp = builder->hasNorm ? 4 : 0; vs.inexact = builder->inexact; discrete = false; out = "ok"; }
+				else{
+					vs.tolUlp = builder->hasNorm ? 4 : 0; vs.inexact = builder->inexact; discrete = false; out = "ok";
+					out += builder->paramOracle;
+					// parameterVector() must have numberOfParameters() entries (only asked when the counts are sane)
+					if(builder->paramOracle.empty() && vs.k->parameterVector().size() != vs.k->numberOfParameters())
+						out += " !oracle parameter-vector-size";
+				}
 			}
 			else if(t[0] == "pts"){
 				std::size_t n, d;
